@@ -32,7 +32,12 @@ type c15Msg struct {
 	SentY    int // date of the Date header as written (disregarding its zone)
 	SentM    time.Month
 	SentD    int
-	Internal time.Time // UTC
+	Internal time.Time // as appended (with its zone)
+
+	// the calendar day of INTERNALDATE as the server reports it
+	IntY int
+	IntM time.Month
+	IntD int
 	Flags    []string  // as appended
 	Literal  []byte
 
@@ -61,6 +66,18 @@ func c15Phrase(rng *rand.Rand) string {
 	return strings.Join(w, " ")
 }
 
+var c15Accented = []string{"café", "naïve", "zürich"}
+
+// latin1 encodes a string of Latin-1 characters as ISO-8859-1 bytes.
+func latin1(s string) []byte {
+	var out []byte
+	for _, r := range s {
+		out = append(out, byte(r))
+	}
+
+	return out
+}
+
 var c15Zones = []string{"+0000", "+0000", "+0000", "+0200", "-0500", "+1300"}
 
 func genC15Msg(rng *rand.Rand, marker string) *c15Msg {
@@ -86,9 +103,20 @@ func genC15Msg(rng *rand.Rand, marker string) *c15Msg {
 	}
 
 	m.Body = "body " + c15Phrase(rng)
+
+	// words outside ASCII (UTF-8 in the message), for searches that name another charset
+	for _, w := range c15Accented {
+		if rng.Intn(3) == 0 {
+			m.Body += " " + w
+		}
+	}
 	m.HasDate = true
 	m.SentY, m.SentM, m.SentD = 2006, time.January, 2+rng.Intn(5)
-	m.Internal = time.Date(2006, time.January, 2+rng.Intn(5), []int{0, 12, 23}[rng.Intn(3)], []int{0, 30, 59}[rng.Intn(3)], []int{0, 59}[rng.Intn(2)], 0, time.UTC)
+	// internal dates in several zones, at the edges of the day: "disregarding time and timezone" refers to the
+	// date as the server reports it in INTERNALDATE, which is what the evaluator uses
+	zoneOffsets := []int{0, 0, 2 * 3600, -5 * 3600, 13 * 3600, -(9*3600 + 1800)}
+	off := zoneOffsets[rng.Intn(len(zoneOffsets))]
+	m.Internal = time.Date(2006, time.January, 2+rng.Intn(5), []int{0, 12, 23}[rng.Intn(3)], []int{0, 30, 59}[rng.Intn(3)], []int{0, 59}[rng.Intn(2)], 0, time.FixedZone("", off))
 
 	for _, f := range []string{`\Seen`, `\Answered`, `\Flagged`, `\Deleted`, `\Draft`, "kwone", "KwTwo"} {
 		if rng.Intn(3) == 0 {
@@ -286,7 +314,7 @@ func (k *c15Key) eval(m *c15Msg, idx int, all []*c15Msg) (match, judged bool) {
 	case "SMALLER":
 		return m.Size < k.Num, true
 	case "BEFORE", "ON", "SINCE":
-		d := time.Date(m.Internal.Year(), m.Internal.Month(), m.Internal.Day(), 0, 0, 0, 0, time.UTC)
+		d := time.Date(m.IntY, m.IntM, m.IntD, 0, 0, 0, 0, time.UTC)
 
 		switch k.Op {
 		case "BEFORE":
@@ -456,8 +484,8 @@ func genC15Key(rng *rand.Rand, depth int, all []*c15Msg) *c15Key {
 // ---- the check ---------------------------------------------------------------------------
 
 func runC15(r *ev.Run) {
-	r.SetRule("mailboxes of 0-14 generated messages whose flags, size, internal date, Date header, address/subject/X-Tag headers (present, absent, empty, folded) and body words are known by construction; the session's view (sequence numbers, UIDs, flags incl. \\Recent, RFC822.SIZE, INTERNALDATE) is read with FETCH, also after another session changed flags, expunged or appended and the observer was told (NOOP), and while a message that another session expunged or the connector deleted is still in the observer's view because it has not been told. Random key expressions (all RFC 3501 keys; NOT/OR/parenthesised lists to depth 3; 1-3 juxtaposed keys; optional CHARSET) are evaluated by the harness over that view and compared with SEARCH (exact ascending list, no duplicates) and UID SEARCH (the UIDs of the same messages); metamorphic relations NOT k = ALL minus k, OR a b = a union b, (a b) = a intersect b are checked on the server's own answers. distinct = distinct expression shapes x result-size classes")
-	r.Assume("internal dates are given in UTC and SENT* keys compare the date of the Date header as written; the X-Pm-Gluon-Id line the server adds is never searched for")
+	r.SetRule("mailboxes of 0-14 generated messages whose flags, size, internal date, Date header, address/subject/X-Tag headers (present, absent, empty, folded) and body words are known by construction; the session's view (sequence numbers, UIDs, flags incl. \\Recent, RFC822.SIZE, INTERNALDATE) is read with FETCH, also after another session changed flags, expunged or appended and the observer was told (NOOP), and while a message that another session expunged or the connector deleted is still in the observer's view because it has not been told. Random key expressions (all RFC 3501 keys; NOT/OR/parenthesised lists to depth 3; 1-3 juxtaposed keys; optional CHARSET; strings outside ASCII sent as literals in UTF-8 and ISO-8859-1) are evaluated by the harness over that view and compared with SEARCH (exact ascending list, no duplicates) and UID SEARCH (the UIDs of the same messages); metamorphic relations NOT k = ALL minus k, OR a b = a union b, (a b) = a intersect b are checked on the server's own answers. distinct = distinct expression shapes x result-size classes")
+	r.Assume("internal dates are given in several zones; BEFORE/ON/SINCE are evaluated on the calendar day of INTERNALDATE as the server reports it in FETCH, SENT* keys on the date of the Date header as written; the X-Pm-Gluon-Id line the server adds is never searched for")
 
 	boxes := r.Pick(120, 1500)
 
@@ -498,7 +526,7 @@ func (c *c15Case) violate(sig, what string) {
 
 	var view []string
 	for _, m := range c.msgs {
-		view = append(view, fmt.Sprintf("%d uid=%d size=%d flags=%v internal=%s sent=%d-Jan from=%q to=%q cc=%q bcc=%q subject=%q xtag=%q body=%q", m.Seq, m.UID, m.Size, keysOf(m.VFlags), m.Internal.Format(time.RFC3339), m.SentD, m.From, m.To, m.Cc, m.Bcc, m.Subject, m.XTag, m.Body))
+		view = append(view, fmt.Sprintf("%d uid=%d size=%d flags=%v internal=%s (reported day %d) sent=%d-Jan from=%q to=%q cc=%q bcc=%q subject=%q xtag=%q body=%q", m.Seq, m.UID, m.Size, keysOf(m.VFlags), m.Internal.Format(time.RFC3339), m.IntD, m.SentD, m.From, m.To, m.Cc, m.Bcc, m.Subject, m.XTag, m.Body))
 	}
 
 	c.r.Violate(sig, what, c.label, map[string]any{"history": c.log, "view": view})
@@ -572,6 +600,8 @@ func (c *c15Case) readView() bool {
 				c.violate("C15 internaldate-differs", fmt.Sprintf("message %s was appended with internal date %s and is served with %s", mk, m.Internal, t))
 				return false
 			}
+
+			cp.IntY, cp.IntM, cp.IntD = t.Year(), t.Month(), t.Day()
 		}
 
 		rows = append(rows, row{cp.Seq, &cp})
@@ -738,6 +768,60 @@ func c15Box(r *ev.Run, label string, queries int) {
 			}
 
 			r.Count("queries_on_a_view_with_an_unannounced_removal", 1)
+		}
+
+		// searches whose string is sent in a named charset (as a literal)
+		if rng.Intn(8) == 0 {
+			word := c15Accented[rng.Intn(len(c15Accented))]
+			if rng.Intn(4) == 0 {
+				rs := []rune(word)
+				word = string(rs[1:]) // a substring that still holds the accented character
+			}
+
+			op := []string{"TEXT", "BODY", "TEXT", "SUBJECT"}[rng.Intn(4)]
+			cs := []string{"UTF-8", "ISO-8859-1", "iso-8859-1", "utf-8"}[rng.Intn(4)]
+			neg := rng.Intn(3) == 0
+
+			raw := []byte(word)
+			if strings.HasPrefix(strings.ToLower(cs), "iso") {
+				raw = latin1(word)
+			}
+
+			key := &c15Key{Op: op, Str: word}
+			top := key
+
+			prefix := "SEARCH CHARSET " + cs + " "
+			if neg {
+				top = &c15Key{Op: "NOT", Sub: []*c15Key{key}}
+				prefix += "NOT "
+			}
+
+			var wantSeq, wantUID []uint64
+
+			for i, m := range c.msgs {
+				if v, _ := top.eval(m, i, c.msgs); v {
+					wantSeq = append(wantSeq, uint64(m.Seq))
+					wantUID = append(wantUID, uint64(m.UID))
+				}
+			}
+
+			res := c.c.Cmd(prefix+op+" ", imapc.Lit(raw))
+			got := searchNums(res)
+			c.logf("%s%s {%q} -> %s %v", prefix, op, raw, res.Status, got)
+			r.Distinct(fmt.Sprintf("charset %s %s neg=%v n=%s", strings.ToUpper(cs), op, neg, lenClass(len(wantSeq))))
+
+			if !res.OK() || !sameNums(got, wantSeq) {
+				c.violate("C15 charset-search-differs "+strings.ToUpper(cs)+" "+op, fmt.Sprintf("%s%s {%q} answered %s %v; the messages whose text holds %q are %v", prefix, op, raw, res.Status, got, word, wantSeq))
+				return
+			}
+
+			resU := c.c.Cmd("UID "+prefix+op+" ", imapc.Lit(raw))
+			if gotU := searchNums(resU); !resU.OK() || !sameNums(gotU, wantUID) {
+				c.violate("C15 charset-uid-search-differs "+strings.ToUpper(cs)+" "+op, fmt.Sprintf("UID %s%s {%q} answered %s %v, expected UIDs %v", prefix, op, raw, resU.Status, gotU, wantUID))
+				return
+			}
+
+			continue
 		}
 
 		nKeys := 1 + rng.Intn(3)
